@@ -1660,6 +1660,17 @@ def declare_rules(ck):
             "(the parent supplies the coarse entity counts for the target offsets: any halo/patch/part with edges or cells is mis-targeted otherwise)", min_instances=36)
     ck.rule("E10.perm-inverse-pair", "MeshPermutation: a member that establishes forward permutations _perms[d] (assignment, whole array handed to a helper, delegation) also establishes _inv_perms[d] = _perms[d].inverse() "
             "(or the corresponding copy) for the same dimensions d, after the forward one and under the same conditions (an empty inverse means 'not renumbered' to TargetSet::permute_map: parts with cells keep stale cell targets)", min_instances=56)
+    ck.rule("E10.perm-inverse-coverage", "MeshPermutation: a member that (re)builds inverse permutations from forward ones it did not establish itself (create_inverse_permutations, the documented "
+            "second step of a custom permutation filled through create_other()) assigns _inv_perms[d] = _perms[d].inverse() for EVERY dimension d = 0..shape_dim; an inverse left empty means "
+            "'dimension not renumbered' to TargetSet::permute_map, so mesh parts with entities of that dimension (cells for d = shape_dim) keep stale targets", min_instances=18)
+    ck.rule("E10.permute-coverage", "MeshPart::permute(mesh_perm) (called for every mesh part, halo and patch when a mesh is permuted), followed through TargetSetHolder::permute_map: for every "
+            "dimension d = 0..shape_dim the target set <d> is mapped through the INVERSE permutation of the same dimension d on every path; the mapping may be skipped only under a test that "
+            "the permutation of that very dimension (or the whole MeshPermutation) is empty - every dimension of a mesh permutation may be empty on its own, so a guard on one dimension "
+            "(e.g. get_perm() with its default argument shape_dim) must not skip the others", min_instances=18)
+    ck.rule("E10.boundary-facet-select", "BoundaryFaceComputer<Shape,n,n>::compute_all / compute_masks (the worker of BoundaryFactory / MaskedBoundaryFactory / GlobalMaskedBoundaryFactory), evaluated "
+            "facet by facet over (number of adjacent cells 1|2) x (facet masked 0|1, the values add_mask_* store): the per-facet counter starts at 0 and is incremented once per (cell, local "
+            "facet) incidence, and a facet is put into the boundary exactly if it has ONE adjacent cell and is not masked - a masked facet is never selected whatever its cell count "
+            "(masks of patch / region / interface parts contain interior facets)", min_instances=8)
     ck.rule("E10.transfer-siblings", "kernel/geometry classes: move constructor, move assignment, clone(other) and clone() of one class transfer the same data members - a member transferred by one sibling is "
             "transferred or re-established by every other (otherwise the destination keeps a stale member, e.g. the facet neighbours of the mesh that was overwritten)", min_instances=137)
     ck.rule("E10.collection-guards", "mesh_node.hpp: a loop over one member collection of a node (mesh part nodes, halos, patches, ...) is not reached only under a condition on a different member collection "
@@ -2362,20 +2373,31 @@ def const_int(n):
 
 
 def loop_range(forn):
-    """for(T v(lo); v < / <= hi; ++v) with constant bounds -> (decl id, range)"""
+    """for(T v(lo); v < / <= / != hi; ++v) or for(T v(hi); v >= / > / != lo; --v) with constant bounds -> (decl id, range)"""
     init, c, inc = forn.get("init"), forn.get("c"), forn.get("inc")
-    if not (init and init.get("k") == "Decl" and len(init["vars"]) == 1 and c and c.get("k") == "Bin" and c.get("op") in ("<", "<=") and inc and inc.get("k") == "Un" and inc.get("op") == "++"):
+    if not (init and init.get("k") == "Decl" and len(init["vars"]) == 1 and c and c.get("k") == "Bin" and inc and inc.get("k") == "Un" and inc.get("op") in ("++", "--")):
         return None
     var = init["vars"][0]
-    lo = const_int(var.get("init"))
-    lhs = c["lhs"]
+    start = const_int(var.get("init"))
+    lhs, rhs, op = c["lhs"], c["rhs"], c.get("op")
     while lhs.get("k") == "Cast":
         lhs = lhs["e"]
-    hi = const_int(c["rhs"])
+    while rhs.get("k") == "Cast":
+        rhs = rhs["e"]
+    if not (lhs.get("k") == "Ref" and lhs.get("d") == var["d"]):
+        lhs, rhs = rhs, lhs
+        op = {"<": ">", ">": "<", "<=": ">=", ">=": "<="}.get(op, op)
+    bound = const_int(rhs)
     e = inc["e"]
-    if lo is None or hi is None or lhs.get("k") != "Ref" or lhs.get("d") != var["d"] or e.get("k") != "Ref" or e.get("d") != var["d"]:
+    while e.get("k") == "Cast":
+        e = e["e"]
+    if start is None or bound is None or lhs.get("k") != "Ref" or lhs.get("d") != var["d"] or e.get("k") != "Ref" or e.get("d") != var["d"]:
         return None
-    return var["d"], range(lo, hi + (1 if c["op"] == "<=" else 0))
+    if inc["op"] == "++" and op in ("<", "<=", "!="):
+        return var["d"], range(start, bound + 1 if op == "<=" else bound)
+    if inc["op"] == "--" and op in (">", ">=", "!="):
+        return var["d"], range(bound if op == ">=" else bound + 1, start + 1)
+    return None
 
 
 def check_perm_pairs(ck, facts):
@@ -2423,8 +2445,14 @@ def check_perm_pairs(ck, facts):
             if ci is not None:
                 return (base["n"], mine, {ci}, str(ci))
             ix = idx
-            while ix is not None and ix.get("k") == "Cast":
-                ix = ix["e"]
+            for _ in range(6):
+                while ix is not None and ix.get("k") == "Cast":
+                    ix = ix["e"]
+                is_loop_var = ix is not None and ix.get("k") == "Ref" and any(a.get("k") == "For" and (loop_range(a) or (None,))[0] == ix.get("d") for a in anc)
+                if ix is not None and ix.get("k") == "Ref" and ix.get("dk") == "local" and ix.get("d") in cur_inits[0] and not is_loop_var:
+                    ix = cur_inits[0][ix["d"]]          # const local holding the (converted) loop variable
+                else:
+                    break
             if ix is not None and ix.get("k") == "Ref":
                 for a in anc:
                     if a.get("k") == "For":
@@ -2462,6 +2490,22 @@ def check_perm_pairs(ck, facts):
                             while r.get("k") in ("Cast",) or (r.get("k") == "Call" and r.get("callee", "").startswith("std::") and len(r.get("a", [])) == 1):
                                 r = r["e"] if r.get("k") == "Cast" else r["a"][0]
                             cls_r = "unknown"
+                            if r.get("k") == "Cond":
+                                # `_perms[d].empty() ? Permutation() : _perms[d].inverse()`: the inverse of an empty permutation is the empty one
+                                arms = []
+                                for arm in (r["then"], r["else"]):
+                                    while arm.get("k") in ("Cast",):
+                                        arm = arm["e"]
+                                    if arm.get("k") in ("Construct", "TempObj") and not arm.get("a") and arm.get("ccls", "").endswith("Adjacency::Permutation"):
+                                        arms.append("empty")
+                                    elif arm.get("k") == "MCall" and arm.get("n") == "inverse":
+                                        so = slots_of(arm["obj"], anc)
+                                        arms.append("inverse-same" if so is not None and so[0] == "_perms" and so[1] and so[3] == s[3] else "other")
+                                    else:
+                                        arms.append("other")
+                                cs = slots_of(next((y for y in featlib.walk(r["c"]) if slots_of(y, anc) is not None), {"k": "?"}), anc) if r.get("c") is not None else None
+                                if sorted(arms) == ["empty", "inverse-same"] and cs is not None and cs[0] == "_perms" and cs[3] == s[3]:
+                                    cls_r = "inverse-same"
                             if r.get("k") == "MCall" and r.get("n") == "inverse":
                                 so = slots_of(r["obj"], anc)
                                 if so is not None and so[0] == "_perms" and so[1]:
@@ -2533,6 +2577,75 @@ def check_perm_pairs(ck, facts):
         for _ in range(2):
             for f in fns:
                 summaries[f.full] = scan(f)
+        # (b) members that (re)build inverse permutations without establishing forward ones (create_inverse_permutations: the
+        #     documented second step of a custom permutation, whose forward array is filled by the caller through create_other())
+        #     must do so for EVERY dimension 0..shape_dim the class holds a permutation for
+        RC = "E10.perm-inverse-coverage"
+        for f in fns:
+            fw, inv, unknown = summaries[f.full]
+            if not fw and not inv and any(u.startswith("slot _inv_perms") for u in unknown) and not f.d.get("ctor"):
+                ck.incomplete(RC, "%s::%s: %s" % (short(cls), f.name, "; ".join(unknown[:2])))
+            if fw or not inv or f.d.get("ctor") or any(x[5] == "copy-same" for x in inv):
+                continue
+            base = "%s::%s" % (short(cls), f.name)
+            if unknown:
+                ck.incomplete(RC, "%s: %s" % (base, "; ".join(unknown[:2])))
+                continue
+            for d in range(N):
+                key = "%s/dim%d" % (base, d)
+                cands = [x for x in inv if d in x[0]]
+                good = [x for x in cands if x[5] == "inverse-same"]
+                if not cands:
+                    ck.ob(RC, key, False, "the inverse permutation of dimension %d%s is not (re)created: no assignment to _inv_perms[%d] on any path (dimensions covered: %s) - "
+                          "TargetSet::permute_map treats the empty inverse as 'not renumbered', so the %d-dimensional target sets of mesh parts keep the old numbers" % (
+                              d, " (the cells)" if d == N - 1 else "", d, sorted(set().union(*[x[0] for x in inv])), d), f.file, f.line)
+                    continue
+                if not good:
+                    x = cands[0]
+                    if x[5] == "unknown":
+                        ck.incomplete(RC, "%s: _inv_perms[%d] is assigned from an expression that is not recognised (line %s)" % (key, d, x[4]))
+                    else:
+                        ck.ob(RC, key, False, "_inv_perms[%d] is the inverse of _perms.%s (line %s), not of _perms[%d]" % (d, x[5].split(":", 1)[-1], x[4], d), f.file, x[4])
+                    continue
+                # conditions the assignment sits under may only look at the forward permutation of the same slot
+                bad_cond = None
+                for x in good:
+                    bad_cond = None
+                    for iid, br in x[2]:
+                        ifn = f.by_id(iid)
+                        c = ifn.get("c") if ifn is not None else None
+                        for y in featlib.walk(c):
+                            if y.get("k") in ("Member",) and y.get("b", {}).get("k") == "This" and y.get("n") != "_perms":
+                                bad_cond = c
+                            if y.get("k") == "Ref" and y.get("dk") == "param":
+                                bad_cond = c
+                        for y in featlib.walk(c):
+                            idx = None
+                            if y.get("k") == "MCall" and y.get("n") in ("at", "back", "front"):
+                                b_, idx = y.get("obj"), (y["a"][0] if y.get("n") == "at" and y.get("a") else None)
+                                tag = {"back": "back", "front": "front"}.get(y["n"])
+                            elif y.get("k") == "OpCall" and y.get("op") == "[]" and len(y.get("a", [])) == 2:
+                                b_, idx, tag = y["a"][0], y["a"][1], None
+                            else:
+                                continue
+                            while b_ is not None and b_.get("k") == "Cast":
+                                b_ = b_["e"]
+                            if b_ is None or b_.get("k") != "Member" or b_.get("n") != "_perms":
+                                continue
+                            while idx is not None and idx.get("k") == "Cast":
+                                idx = idx["e"]
+                            if idx is not None:
+                                ci = const_int(idx)
+                                tag = str(ci) if ci is not None else ("loop:%s" % idx["d"] if idx.get("k") == "Ref" else featlib.render(idx))
+                            if tag != x[1]:
+                                bad_cond = c
+                    if bad_cond is None:
+                        break
+                if bad_cond is not None:
+                    ck.incomplete(RC, "%s: the assignment of _inv_perms[%d] depends on the condition `%s`, which is not a test of _perms[%d] alone" % (key, d, featlib.render(bad_cond), d))
+                    continue
+                ck.ob(RC, key, True, "_inv_perms[%d] = _perms[%d].inverse() (line %s)" % (d, d, good[0][4]), f.file, good[0][4])
+
         for f in fns:
             fw, inv, unknown = summaries[f.full]
             if not fw:
@@ -2796,6 +2909,96 @@ def check_topology_coverage(ck, facts):
 
 
 
+def check_permute_coverage(ck, facts):
+    """MeshPart::permute(mesh_perm): the target set of every dimension is mapped through the inverse permutation of that dimension"""
+    R = "E10.permute-coverage"
+    anchors = [f for f in facts.functions if f.tk != "pattern" and f.body is not None and re.match(r"^FEAT::Geometry::MeshPart<.*>::permute$", f.qn)
+               and len(f.params) == 1 and "MeshPermutation<" in (f.type(f.params[0]["t"]) or "")]
+    if not anchors:
+        ck.incomplete(R, "anchor MeshPart::permute(const MeshPermutation&) not found")
+    for f in sorted(anchors, key=lambda f: f.full):
+        dim = norm_c10.shape_dim(f.cls)
+        if dim is None:
+            ck.incomplete(R, "%s: shape dimension not recognised" % short(f.cls))
+            continue
+        pe = norm_c10.PermEvents(facts)
+        pe.analyse(f, {f.params[0]["d"]: ("P",)})
+        for d in range(dim + 1):
+            key = "%s::%s/dim%d" % (short(f.cls)[:110], f.name, d)
+            evs = [e for e in pe.events if e.m == d]
+
+            def bad_guards(e):
+                return [g for g in e.guards if g[0] == "unknown" or not (g[0] == "count" and g[2] == "nonzero" and g[1] in (d, -1))]
+            good = [e for e in evs if e.f == 0 and not bad_guards(e)]
+            if good:
+                e = good[0]
+                ck.ob(R, key, True, "target set <%d> is mapped through the inverse permutation of dimension %d in %s (line %s)%s" % (
+                    d, d, short(e.fn.cls) + "::" + e.fn.name, e.line, ", skipped only where that permutation / the whole mesh permutation is empty" if e.guards else ""), f.file, f.line)
+                continue
+            wrong_dim = [e for e in evs if e.f >= 2]
+            if wrong_dim and not [e for e in evs if e.f == 0]:
+                e = wrong_dim[0]
+                ck.ob(R, key, False, "target set <%d> is mapped through the permutation of dimension %d (%s line %s): the indices of %d-dimensional parent entities are renumbered with the "
+                      "numbering of another dimension" % (d, e.f - 2, short(e.fn.cls) + "::" + e.fn.name, e.line, d), e.fn.file, e.line)
+                continue
+            wrong_kind = [e for e in evs if e.f == 1]
+            if wrong_kind and not [e for e in evs if e.f == 0]:
+                e = wrong_kind[0]
+                ck.ob(R, key, False, "target set <%d> is mapped through the FORWARD permutation of dimension %d (%s line %s); the targets are parent indices and need the inverse" % (
+                    d, d, short(e.fn.cls) + "::" + e.fn.name, e.line), e.fn.file, e.line)
+                continue
+            cand = [e for e in evs if e.f == 0]
+            unknown = [(e, g) for e in cand for g in bad_guards(e) if g[0] == "unknown"]
+            definite = [(e, g) for e in cand for g in bad_guards(e) if g[0] == "count"]
+            if cand and unknown and not definite:
+                e, g = unknown[0]
+                ck.incomplete(R, "%s: permute_map at %s:%s is reached under the condition `%s` on the mesh permutation, which this rule does not understand" % (key, rel(e.fn.file), e.line, g[1]))
+                continue
+            if definite:
+                e, g = definite[0]
+                what = "the whole mesh permutation" if g[1] == -1 else "the permutation of dimension %d%s" % (g[1], " (the elements; get_perm() defaults to shape_dim)" if g[1] == dim else "")
+                if g[2] == "nonzero":
+                    why = ("the target set <%d> is only renumbered if %s is not empty (condition `%s` at %s:%s): a mesh permutation that renumbers the %d-dimensional entities but leaves "
+                           "dimension %d alone (each dimension may be empty on its own) leaves the part's %d-dimensional targets stale" % (d, what, g[3], rel(g[4].file), g[5], d, g[1], d))
+                else:
+                    why = "the target set <%d> is only renumbered if %s IS empty (condition `%s` at %s:%s)" % (d, what, g[3], rel(g[4].file), g[5])
+                ck.ob(R, key, False, why, g[4].file, g[5])
+                continue
+            if pe.escapes:
+                t, efn, el = pe.escapes[0]
+                ck.incomplete(R, "%s: no permute_map of dimension %d found, but %s (%s:%s)" % (key, d, t, rel(efn.file), el))
+                continue
+            ck.ob(R, key, False, "no path from %s::%s applies the inverse permutation of dimension %d to the target set <%d> (dimensions served: %s)" % (
+                short(f.cls), f.name, d, d, sorted({e.m for e in pe.events})), f.file, f.line)
+
+
+
+def check_boundary_select(ck, facts):
+    """BoundaryFaceComputer<Shape,n,n>::compute_all / compute_masks: which facets are selected as boundary facets"""
+    R = "E10.boundary-facet-select"
+    fns = [f for f in facts.functions if f.tk != "pattern" and f.body is not None and re.match(r"^FEAT::Geometry::Intern::BoundaryFaceComputer<.*>::compute_(all|masks)$", f.qn)]
+    if not fns:
+        ck.incomplete(R, "BoundaryFaceComputer::compute_all / compute_masks not instantiated")
+    for f in sorted(fns, key=lambda f: f.full):
+        key = "%s::%s" % (short(f.cls), f.name)
+        try:
+            sel, val, info = norm_c10.facet_selection(f)
+        except norm_c10.NotPointwise as e:
+            ck.incomplete(R, "%s: %s" % (key, e))
+            continue
+        masked = any(m for (_, m) in sel)
+        bad = []
+        for (c, m), s_ in sorted(sel.items()):
+            want = (c == 1 and m == 0)
+            if s_ != want:
+                bad.append("a %s facet with %d adjacent cell%s (%s) is %s the boundary: its counter is %s when the facets are selected (line %s)%s" % (
+                    "masked" if m else ("unmasked" if masked else "mesh"), c, "" if c == 1 else "s", "boundary facet" if c == 1 else "interior facet",
+                    "put into" if s_ else "missing from", val[(c, m)], info["select_lines"], ", after the masking step at line %s" % info["post_lines"] if info["post_lines"] and m else ""))
+        ck.ob(R, key, not bad, "; ".join(bad) if bad else "selected <=> exactly one adjacent cell%s (counter values %s)" % (
+            " and not masked" if masked else "", {("%d cells%s" % (c, ", masked" if m else "")): v for (c, m), v in sorted(val.items())}), f.file, (info["post_lines"] or info["select_lines"] or [f.line])[0] if bad else f.line)
+
+
+
 def is_container_type(ty):
     return bool(re.match(r"^(const )?std::(map|vector|deque|list|set|unordered_map|multimap)<", (ty or "").strip()))
 
@@ -3051,6 +3254,8 @@ def analyse(ck, facts, second_pass=False):
         check_transfer_siblings(ck, facts)
         check_collection_guards(ck, facts)
         check_topology_coverage(ck, facts)
+        check_permute_coverage(ck, facts)
+        check_boundary_select(ck, facts)
         check_callsites(ck, facts)
         check_flips(T, ck, facts)
     # assertions met while evaluating the glue classes on concrete local indices (visible in DEBUG parses)
@@ -3097,7 +3302,7 @@ def run(tier):
               "absence of m-entities for m >= d; conditions that do not query an entity count (data-dependent failure exits) are not coverage conditions")
     extra = {"templates_covered": covered,
              "not_covered": ["StandardTargetRefiner<Hypercube<3>|Simplex<3>, cell_dim>=0>: mesh parts with 3D cells (the repository aborts with XASSERT num_cells == 0)",
-                             "adaptation to charts, BoundaryFactory, FacetNeighbors, the values IndexCalculator/IndexSetFiller compute (E10.topology-coverage decides only which index sets are computed on which paths), structured meshes",
+                             "adaptation to charts, BoundaryFactory beyond the facet selection of E10.boundary-facet-select (lower-dimensional faces of the boundary, halo exchange of the global variant), FacetNeighbors, the values IndexCalculator/IndexSetFiller compute (E10.topology-coverage decides only which index sets are computed on which paths), structured meshes",
                              "TargetSetRefineParentWrapper<StructuredMesh> (structured parents), StandardAttribRefiner (mesh part attributes), CongruencySampler::orientation / CongruencyMapping::flip"]}
     if tier == "thorough":
         import json
